@@ -26,6 +26,9 @@ pub type C = (i64, i64);
 /// generated for Rect corners, and geometry derived from such a Rect never joins the polygon pool
 /// (inf - inf = NaN would make "closed" unsatisfiable)
 pub const EXT: i64 = 1 << 40;
+/// codes in [TINY - 64, TINY + 64] select values so small that products of their differences
+/// underflow (floats: k * 1e-170 / k * 1e-30); for integer scalars they are just small integers
+pub const TINY: i64 = 1 << 36;
 
 pub trait Scalar: CoordNum + std::fmt::Debug + 'static {
     const NAME: &'static str;
@@ -51,6 +54,9 @@ impl Scalar for f64 {
         if c >= EXT {
             return [f64::MAX, -f64::MAX, f64::MAX / 2.0, -f64::MAX / 2.0, 1e308, -1e308, f64::MIN_POSITIVE, 0.0][((c - EXT) % 8) as usize];
         }
+        if (c - TINY).abs() <= 64 {
+            return (c - TINY) as f64 * 1e-170;
+        }
         c as f64 * 0.25
     }
     fn is_extreme(self) -> bool {
@@ -73,6 +79,9 @@ impl Scalar for f32 {
         if c >= EXT {
             return [f32::MAX, -f32::MAX, f32::MAX / 2.0, -f32::MAX / 2.0, 3e38, -3e38, f32::MIN_POSITIVE, 0.0][((c - EXT) % 8) as usize];
         }
+        if (c - TINY).abs() <= 64 {
+            return (c - TINY) as f32 * 1e-30;
+        }
         c as f32 * 0.25
     }
     fn is_extreme(self) -> bool {
@@ -92,6 +101,9 @@ impl Scalar for i32 {
         if c >= EXT {
             return [i32::MAX, i32::MIN, i32::MAX / 2, i32::MIN / 2, i32::MAX - 1, i32::MIN + 1, 1, 0][((c - EXT) % 8) as usize];
         }
+        if (c - TINY).abs() <= 64 {
+            return (c - TINY) as i32;
+        }
         c as i32
     }
     fn is_extreme(self) -> bool {
@@ -104,6 +116,9 @@ impl Scalar for i64 {
     fn from_code(c: i64) -> i64 {
         if c >= EXT {
             return [i64::MAX, i64::MIN, i64::MAX / 2, i64::MIN / 2, i64::MAX - 1, i64::MIN + 1, 1, 0][((c - EXT) % 8) as usize];
+        }
+        if (c - TINY).abs() <= 64 {
+            return c - TINY;
         }
         c
     }
@@ -933,8 +948,20 @@ impl<T: Scalar> State<T> {
                 // Triangle::new documents that it may reorder its arguments to a
                 // counter-clockwise winding; the conversion claim is about the vertices the
                 // Triangle *holds*, in the order it holds them.
-                let t = Triangle::new(co::<T>(a), co::<T>(b), co::<T>(c));
+                // half of the time through the tuple constructor / array conversion, which keep
+                // the given (possibly clockwise) order
+                let t = if (a.0 + b.1) % 2 == 0 { Triangle::new(co::<T>(a), co::<T>(b), co::<T>(c)) } else { Triangle(co::<T>(a), co::<T>(b), co::<T>(c)) };
                 let (a, b, c) = (t.0, t.1, t.2);
+                // into the enum and back, and through a collection
+                let g: Geometry<T> = t.into();
+                match Triangle::<T>::try_from(g.clone()) {
+                    Ok(back) if back == t => {}
+                    other => return Err(("conversion".into(), format!("Triangle({:?},{:?},{:?}) -> Geometry -> Triangle gave {:?}", a, b, c, other))),
+                }
+                let gc = GeometryCollection::from(vec![t]);
+                if gc.0 != vec![Geometry::Triangle(t)] {
+                    return Err(("conversion".into(), format!("Vec<Triangle> -> GeometryCollection changed Triangle({:?},{:?},{:?}) into {:?}", a, b, c, gc.0)));
+                }
                 for via in 0..2 {
                     let p: Polygon<T> = if via == 0 { t.to_polygon() } else { Polygon::from(t) };
                     if p.exterior().0 != vec![a, b, c, a] || !p.interiors().is_empty() {
@@ -1035,7 +1062,8 @@ fn enum_round_trip<T: Scalar>(kind: u8, cs: &[C]) -> Result<(), (String, String)
         5 => rt!(MultiLineString, MultiLineString::new(vec![ls.clone(), LineString::new(vec![c1, c0])])),
         6 => rt!(MultiPolygon, MultiPolygon::new(vec![poly.clone(), Polygon::new(ls, vec![])])),
         7 => rt!(Rect, Rect::new(c0, c1)),
-        8 => rt!(Triangle, Triangle::new(c0, c1, c2)),
+        // the tuple constructor keeps the given (possibly clockwise) vertex order
+        8 => rt!(Triangle, Triangle(c0, c1, c2)),
         _ => {
             let v = GeometryCollection::new_from(vec![Geometry::Point(Point(c0)), Geometry::Polygon(poly)]);
             let g = Geometry::GeometryCollection(v.clone());
@@ -1114,16 +1142,21 @@ pub fn run_history(h: &History) -> RunResult {
 pub struct Swarm {
     pub long_rings: bool,
     pub far: bool,
+    pub tiny: bool,
 }
 thread_local! {
-    static SWARM: std::cell::Cell<Swarm> = const { std::cell::Cell::new(Swarm { long_rings: false, far: false }) };
+    static SWARM: std::cell::Cell<Swarm> = const { std::cell::Cell::new(Swarm { long_rings: false, far: false, tiny: false }) };
 }
 
 fn gen_c(rng: &mut Rng) -> C {
     let sw = SWARM.with(|s| s.get());
-    if sw.far {
-        // large magnitudes (products of differences still fit i32), still with coincidences
-        let base = *rng.pick(&[-(1i64 << 14), 0, 1 << 13, (1 << 14) - 3]);
+    if sw.tiny {
+        // differences so small that their products underflow to zero
+        (TINY + rng.range(-3, 4), TINY + rng.range(-3, 4))
+    } else if sw.far {
+        // large magnitudes, still with coincidences; differences reach 2^17, so 32-bit
+        // products of differences wrap (the build has overflow checks off, like a release build)
+        let base = *rng.pick(&[-(1i64 << 16), 0, 1 << 15, (1 << 16) - 3]);
         (base + rng.range(-2, 3), base / 2 + rng.range(-2, 3))
     } else {
         (rng.range(-4, 8), rng.range(-4, 8))
@@ -1285,7 +1318,8 @@ pub fn gen_history(seed: u64) -> History {
     let mut rng = Rng::stream(seed, "c18-workload");
     let scalar = *rng.pick(&["f64", "f64", "f32", "i32", "i64"]);
     // swarm: per-history knobs
-    let sw = Swarm { long_rings: rng.chance(1, 8), far: rng.chance(1, 10) };
+    let tiny = rng.chance(1, 12);
+    let sw = Swarm { long_rings: rng.chance(1, 8), far: !tiny && rng.chance(1, 10), tiny };
     SWARM.with(|s| s.set(sw));
     let n = if rng.chance(1, 12) { 17 + rng.below(60) } else { 2 + rng.below(15) };
     let mut ops = Vec::with_capacity(n + 1);
